@@ -54,6 +54,15 @@ pub struct HardFault {
     pub target: String,
 }
 
+/// Library-API driver: push every contig, with drain / sync_and_flush calls at generated
+/// points (instead of the CLI's fixed call pattern).
+#[derive(Clone, Debug, Serialize, Deserialize, PartialEq)]
+pub struct ApiPlan {
+    /// (after how many pushes, 0 = drain, 1 = sync_and_flush)
+    pub calls: Vec<(u32, u8)>,
+    pub concatenated: bool,
+}
+
 #[derive(Clone, Debug, Serialize, Deserialize, PartialEq)]
 pub struct PipeSpec {
     pub gen: GenParams,
@@ -63,6 +72,8 @@ pub struct PipeSpec {
     pub sched: SchedSpec,
     #[serde(default)]
     pub hard: Option<HardFault>,
+    #[serde(default)]
+    pub api: Option<ApiPlan>,
 }
 
 pub const ARCHIVE_PATH: &str = "/sim/out.agc";
@@ -108,6 +119,20 @@ pub fn generate(run_seed: u64) -> PipeSpec {
     generate_with(run_seed, 0)
 }
 
+/// Library-API variant: the same workload/config space, driven through push / drain /
+/// sync_and_flush / finalize with the extra calls at generated points.
+pub fn generate_api(run_seed: u64, oversize_pct: u64) -> PipeSpec {
+    let mut spec = generate_with(run_seed, oversize_pct);
+    let mut r = Rng::new(run_seed ^ 0xA91);
+    let w = genome::generate(&spec.gen);
+    let total: u32 = w.samples.iter().map(|s| s.contigs.len() as u32).sum();
+    let ncalls = r.range(0, 6);
+    let mut calls: Vec<(u32, u8)> = (0..ncalls).map(|_| (r.below(total as u64 + 1) as u32, r.below(2) as u8)).collect();
+    calls.sort();
+    spec.api = Some(ApiPlan { calls, concatenated: r.pct(50) });
+    spec
+}
+
 /// `oversize_pct`: share of runs whose queue capacity is smaller than one contig.
 pub fn generate_with(run_seed: u64, oversize_pct: u64) -> PipeSpec {
     let mut s = seed::streams(run_seed);
@@ -139,7 +164,7 @@ pub fn generate_with(run_seed: u64, oversize_pct: u64) -> PipeSpec {
         BenignFaults::default()
     };
     let sched = SchedSpec::draw(&mut s.config, &mut s.schedule);
-    PipeSpec { gen, cfg, faults, presentations, sched, hard: None }
+    PipeSpec { gen, cfg, faults, presentations, sched, hard: None, api: None }
 }
 
 /// Files of a spec as they are put on the sim disk: (path, bytes), in command-line order.
@@ -235,6 +260,70 @@ pub struct PipeRun {
 struct Prepared {
     cfg: PipeCfg,
     inputs: Vec<String>,
+    api: Option<(ApiPlan, Workload)>,
+}
+
+fn parse_cap(s: &str) -> usize {
+    let t = s.trim().to_uppercase();
+    let (num, mul) = if let Some(n) = t.strip_suffix('K') {
+        (n.to_string(), 1usize << 10)
+    } else if let Some(n) = t.strip_suffix('M') {
+        (n.to_string(), 1usize << 20)
+    } else if let Some(n) = t.strip_suffix('G') {
+        (n.to_string(), 1usize << 30)
+    } else {
+        (t.clone(), 1usize)
+    };
+    num.parse::<usize>().unwrap_or(1 << 30) * mul
+}
+
+/// Drive the library API directly (what a library user does).
+pub fn api_body(cfg: &PipeCfg, plan: &ApiPlan, w: &Workload) -> CreateResult {
+    use ragc_core::{StreamingQueueCompressor, StreamingQueueConfig};
+    if cfg.sync_per_sample {
+        std::env::set_var("RAGC_SYNC_PER_SAMPLE", "1");
+    } else {
+        std::env::remove_var("RAGC_SYNC_PER_SAMPLE");
+    }
+    let refs: Vec<Vec<u8>> = w.samples[0].contigs.iter().map(|c| c.1.clone()).collect();
+    let (splitters, _, _) = ragc_core::splitters::determine_splitters(&refs, cfg.k as usize, cfg.segment_size as usize);
+    let config = StreamingQueueConfig {
+        k: cfg.k as usize,
+        segment_size: cfg.segment_size as usize,
+        min_match_len: cfg.min_match_len as usize,
+        compression_level: cfg.compression_level,
+        num_threads: cfg.threads as usize,
+        queue_capacity: parse_cap(&cfg.queue_capacity),
+        verbosity: 0,
+        adaptive_mode: false,
+        fallback_frac: cfg.fallback_frac,
+        batch_size: 50,
+        pack_size: cfg.pack_cardinality as usize,
+        concatenated_genomes: plan.concatenated,
+    };
+    let mut c = StreamingQueueCompressor::with_splitters(ARCHIVE_PATH, config, splitters).map_err(|e| format!("{e:#}"))?;
+    let mut n = 0u32;
+    let run_calls = |c: &StreamingQueueCompressor, n: u32| -> CreateResult {
+        for &(at, kind) in &plan.calls {
+            if at == n {
+                if kind == 0 {
+                    c.drain().map_err(|e| format!("{e:#}"))?;
+                } else {
+                    c.sync_and_flush("sync").map_err(|e| format!("{e:#}"))?;
+                }
+            }
+        }
+        Ok(())
+    };
+    run_calls(&c, 0)?;
+    for s in &w.samples {
+        for (name, codes) in &s.contigs {
+            c.push(s.name.clone(), name.trim().to_string(), codes.clone()).map_err(|e| format!("{e:#}"))?;
+            n += 1;
+            run_calls(&c, n)?;
+        }
+    }
+    c.finalize().map_err(|e| format!("{e:#}"))
 }
 
 pub const MAX_STEPS: usize = 4_000_000;
@@ -250,13 +339,16 @@ pub fn execute_batch(specs: &[PipeSpec]) -> Vec<(Workload, PipeRun)> {
         let world = make_world(spec, &files);
         let inputs: Vec<String> = files.iter().map(|(p, _)| p.clone()).collect();
         jobs.push(Job {
-            spec: Arc::new(Prepared { cfg: spec.cfg.clone(), inputs }),
+            spec: Arc::new(Prepared { cfg: spec.cfg.clone(), inputs, api: spec.api.clone().map(|a| (a, w.clone())) }),
             world,
             sched: spec.sched.clone(),
         });
         workloads.push(w);
     }
-    let results = run_batch(jobs, MAX_STEPS, 1 << 20, |p: &Prepared| create_body(&p.cfg, &p.inputs));
+    let results = run_batch(jobs, MAX_STEPS, 1 << 20, |p: &Prepared| match &p.api {
+        Some((plan, w)) => api_body(&p.cfg, plan, w),
+        None => create_body(&p.cfg, &p.inputs),
+    });
     results
         .into_iter()
         .zip(workloads)
